@@ -195,6 +195,13 @@ pub struct GenOptions {
 }
 
 fn pick_possible_count(rng: &mut Rng, max: u32) -> u32 {
+    if rng.chance(1, 6) {
+        // 64k+1 possible processors: the highest id sits alone in the last 64-bit word of a mask.
+        let n = 64 * *rng.pick(&[1_u32, 1, 2, 3, 4, 8, 16]) + 1;
+        if n <= max {
+            return n;
+        }
+    }
     let n = match rng.weighted(&[40, 30, 20, 10]) {
         0 => rng.range(1, 8),
         1 => rng.range(9, 64),
